@@ -25,7 +25,7 @@ def gen_ops(tier, rng):
     for blk in range(16):
         ops.append((f"tab leo8 mul {blk}", {"cat": "leo8:mul"}))
         ops.append((f"tab leo8 mul256 {blk}", {"cat": "leo8:mul256"}))
-    n16 = 16 if tier == "quick" else 256
+    n16 = 256          # every entry of the four 65,536-entry GF(2^16) tables, both tiers
     for t in ["log", "exp", "skew", "walsh"]:
         for blk in range(n16):
             ops.append((f"tab leo16 {t} {blk}", {"cat": "leo16:" + t}))
